@@ -27,6 +27,7 @@ import (
 	"unsafe"
 
 	"github.com/Ptt-official-app/go-pttbbs/cache"
+	"github.com/Ptt-official-app/go-pttbbs/cmbbs"
 	"github.com/Ptt-official-app/go-pttbbs/ptt"
 	"github.com/Ptt-official-app/go-pttbbs/ptttype"
 	"github.com/Ptt-official-app/go-pttbbs/types"
@@ -47,6 +48,10 @@ var (
 	moneySz  = int(unsafe.Sizeof(ptttype.USEREC_RAW.Money))
 	levelOff = int(unsafe.Offsetof(ptttype.USEREC_RAW.UserLevel))
 	llOff    = int(unsafe.Offsetof(ptttype.USEREC_RAW.LastLogin))
+	emailOff = int(unsafe.Offsetof(ptttype.USEREC_RAW.Email))
+	emailSz  = int(unsafe.Sizeof(ptttype.USEREC_RAW.Email))
+	pwOff    = int(unsafe.Offsetof(ptttype.USEREC_RAW.PasswdHash))
+	pwSz     = int(unsafe.Sizeof(ptttype.USEREC_RAW.PasswdHash))
 	idOff    = int(unsafe.Offsetof(ptttype.USEREC_RAW.UserID))
 	idSz     = int(unsafe.Sizeof(ptttype.USEREC_RAW.UserID))
 
@@ -268,6 +273,8 @@ func parseFree(tok string) ([]int64, bool) {
 	}
 	return l, true
 }
+
+var reEmail = regexp.MustCompile(`^[A-Za-z0-9@.]{1,40}$`)
 
 var reIdent = regexp.MustCompile(`^[A-Za-z][A-Za-z0-9]{1,11}$`)
 
@@ -833,6 +840,40 @@ func exec(line string) (out, label string, res *result) {
 	case ws[0] == "resetconc" && len(ws) == 4:
 		o, l := doConc(ws)
 		return o, l, nil
+	case ws[0] == "resetconcfld" && len(ws) == 4:
+		o, l := doConcFld(ws)
+		return o, l, nil
+	case ws[0] == "chemail" && len(ws) == 3:
+		u, ok := parseI32(ws[1])
+		if !ok || !P.have || !reEmail.MatchString(ws[2]) {
+			return "bad-op", "bad-op", nil
+		}
+		if inArr(u) && names[u] == "" {
+			return "no-name", "chemail:no-name", nil
+		}
+		em := &ptttype.Email_t{}
+		copy(em[:], ws[2])
+		var err error
+		o := hx.CallSync(func() string { err = ptt.ChangeEmail(slotName(u), em); return "" })
+		if o == "PANIC" {
+			pendingFails = append(pendingFails, pending{"crash:valid-slot", line + ": panic: " + hx.LastPanic})
+			P.snapshot()
+			return "PANIC " + observe2(u), "chemail:PANIC", nil
+		}
+		// oracle: a field writer changes the Email field of that record and nothing else; SHM untouched
+		if P.judged {
+			if f, ok := readFile(); ok {
+				lo, hi := -1, -1
+				if inArr(u) && err == nil {
+					lo = recSize*int(u-1) + emailOff
+					hi = lo + emailSz
+				}
+				P.frameRange(opCount, line, f, lo, hi)
+				P.frameShm(opCount, line, shmNow(), 0)
+			}
+		}
+		P.snapshot()
+		return errClass(err) + " " + observe2(u), "chemail:" + slotClass(u) + ":" + errClass(err), nil
 	case ws[0] == "resetconcrec" && len(ws) == 4:
 		o, l := doConcRec(ws)
 		return o, l, nil
@@ -1689,8 +1730,173 @@ func doConcRec(ws []string) (string, string) {
 	return "done", fmt.Sprintf("concrec:%dx%d", G, N)
 }
 
+// doConcFld: `resetconcfld G N seed`: field writers racing with money writers on the SAME users.  N rounds; in every
+// round, for each of G users at the same time: one goroutine credits/debits the user (after a short, varying delay),
+// another changes the user's password (ptt.ChangePasswd) or e-mail (ptt.ChangeEmail).  After every round the Money of
+// each of these users in .PASSWDS must be its SHM money and what plain arithmetic says; at the end every slot is
+// judged (the password hash carries a random salt: those bytes are not compared; the e-mail must be the last one set).
+func doConcFld(ws []string) (string, string) {
+	g64, ok1 := parseNat(ws[1], 2)
+	n64, ok2 := parseNat(ws[2], 6)
+	seed, ok3 := parseNat(ws[3], 19)
+	G, N := int(g64), int(n64)
+	if !(ok1 && ok2 && ok3) || G < 1 || 2*G > nSlot || N < 1 || N > 100000 {
+		return "bad-op", "bad-op"
+	}
+	line := strings.Join(ws, " ")
+	if namesDirty || namesFree != "-" {
+		setupNames(nil)
+	}
+	slots := concSlots(G)
+	start := fill(seed, recSize*nSlot)
+	var arr [nSlot]int32
+	for s := 0; s < nSlot; s++ {
+		arr[s] = int32(1000 * (s + 1))
+		binary.LittleEndian.PutUint32(start[recSize*s+moneyOff:], uint32(arr[s]))
+	}
+	pw := func(k int) []byte { return []byte(fmt.Sprintf("pw%d", k%7)) }
+	for _, u := range slots {
+		h, err := cmbbs.GenPasswd(pw(0))
+		if err != nil {
+			panic(err)
+		}
+		copy(start[recSize*int(u-1)+pwOff:], h[:])
+	}
+	if err := os.WriteFile(ptttype.FN_PASSWD, start, 0o600); err != nil {
+		panic(err)
+	}
+	cache.Shm.Shm.Money = arr
+	pwGen = [nSlot]int{}
+	fails := map[string]bool{}
+	var mu sync.Mutex
+	fail := func(key, what string) {
+		mu.Lock()
+		defer mu.Unlock()
+		if !fails[key] {
+			fails[key] = true
+			pendingFails = append(pendingFails, pending{key, line + ": " + what})
+		}
+	}
+	bal := make([]int64, G)
+	lastEmail := make([]string, G)
+	for k, u := range slots {
+		bal[k] = int64(arr[u-1])
+	}
+	r := hx.NewRand(seed + 99)
+	ip := &ptttype.IPv4_t{}
+	for round := 0; round < N; round++ {
+		var wg sync.WaitGroup
+		gate := make(chan struct{})
+		delay := round % 64
+		for k, u := range slots {
+			d := int64(r.Intn(151)) - 50
+			if d < 0 && bal[k] < -d {
+				bal[k] = 0
+			} else {
+				bal[k] += d
+			}
+			wg.Add(2)
+			go func(k int, u, d int64) { // the money writer
+				defer wg.Done()
+				<-gate
+				for y := 0; y < delay*40; y++ {
+					runtime.Gosched()
+				}
+				res := hx.CallSync(func() string {
+					if got, err := cache.DeUMoney(ptttype.UID(u), int32(d)); err != nil || int64(got) != bal[k] {
+						fail("mismatch:arith", fmt.Sprintf("round %d: DeUMoney(%d, %d) returned (%d, %v), plain arithmetic says %d", round, u, d, got, err, bal[k]))
+					}
+					return ""
+				})
+				if res == "PANIC" {
+					fail("crash:valid-slot", "DeUMoney panicked: "+hx.LastPanic)
+				}
+			}(k, u, d)
+			go func(k int, u int64) { // the field writer
+				defer wg.Done()
+				<-gate
+				res := hx.CallSync(func() string {
+					if round%3 == 2 {
+						em := &ptttype.Email_t{}
+						lastEmail[k] = fmt.Sprintf("u%dr%d@example.org", u, round)
+						copy(em[:], lastEmail[k])
+						if err := ptt.ChangeEmail(slotName(u), em); err != nil {
+							fail("valid-slot-rejected", fmt.Sprintf("round %d: ChangeEmail of slot %d: %v", round, u, err))
+						}
+						return ""
+					}
+					if err := ptt.ChangePasswd(slotName(u), pw(pwGen[k]), pw(pwGen[k]+1), ip); err != nil {
+						fail("valid-slot-rejected", fmt.Sprintf("round %d: ChangePasswd of slot %d: %v", round, u, err))
+					} else {
+						pwGen[k]++
+					}
+					return ""
+				})
+				if res == "PANIC" {
+					fail("crash:valid-slot", "the field writer panicked: "+hx.LastPanic)
+				}
+			}(k, u)
+		}
+		close(gate)
+		wg.Wait()
+		// after the round: every one of these users
+		f, _ := readFile()
+		now := shmNow()
+		for k, u := range slots {
+			d, _ := diskMoney(f, u)
+			if int64(now[u-1]) != bal[k] {
+				fail("mismatch:arith", fmt.Sprintf("round %d: slot %d: Shm.Money=%d, plain arithmetic says %d", round, u, now[u-1], bal[k]))
+			}
+			if d != int64(now[u-1]) {
+				fail("mismatch:shm-disk", fmt.Sprintf("round %d: slot %d (a credit/debit and a password/e-mail change of this user ran at the same time): Shm.Money=%d but .PASSWDS money=%d", round, u, now[u-1], d))
+			}
+		}
+		if len(fails) > 0 {
+			break
+		}
+	}
+	// ---- every slot at the end ----
+	got, _ := readFile()
+	now := shmNow()
+	if len(got) != len(start) {
+		fail("frame:concurrent", fmt.Sprintf(".PASSWDS is %d bytes long, expected %d", len(got), len(start)))
+	} else {
+		want := append([]byte{}, start...)
+		for k, u := range slots {
+			base := recSize * int(u-1)
+			binary.LittleEndian.PutUint32(want[base+moneyOff:], uint32(int32(bal[k])))
+			if lastEmail[k] != "" {
+				em := make([]byte, emailSz)
+				copy(em, lastEmail[k])
+				copy(want[base+emailOff:], em)
+			}
+			copy(want[base+pwOff:base+pwOff+pwSz], got[base+pwOff:base+pwOff+pwSz]) // salted hash: not compared
+		}
+		for k := range want {
+			if got[k] != want[k] && len(fails) == 0 {
+				fail("frame:concurrent", fmt.Sprintf("byte %d of .PASSWDS (record %d, offset %d) is %#02x, expected %#02x", k, k/recSize+1, k%recSize, got[k], want[k]))
+				break
+			}
+		}
+	}
+	for s := 0; s < nSlot; s++ {
+		owned := false
+		for _, u := range slots {
+			owned = owned || int(u-1) == s
+		}
+		if !owned && now[s] != arr[s] {
+			fail("frame:shm", fmt.Sprintf("bystander slot %d: Shm.Money changed from %d to %d", s+1, arr[s], now[s]))
+		}
+	}
+	P = oracle{}
+	stale = map[int64]*ptttype.UserecRaw{}
+	return "done", fmt.Sprintf("concfld:%dx%d", G, N)
+}
+
+var pwGen [nSlot]int
+
 func generateConcurrent() {
-	run.Rule = "concurrent stress (property oracle only; the model answers `done`): resetconc G N seed = G goroutines x N SetUMoney/DeUMoney calls, each goroutine the only writer of its own slot (1, MAX_USERS, 2, MAX_USERS-1, ...), started together; afterwards every byte of .PASSWDS and every SHM entry is compared with the image plain arithmetic gives. `resetconcrec G N seed` = the same with whole-record writers: every goroutine mixes SetUMoney/DeUMoney, ptt.SetUserPerm with its own (stale-Money) copy and ptt.GetUser on its own slot while a registrar runs ptt.SetupNewUser into free slots; every slot of .PASSWDS is judged, bystanders included. nontrivial = a resetconc/resetconcrec that ran"
+	run.Rule = "concurrent stress (property oracle only; the model answers `done`): resetconc G N seed = G goroutines x N SetUMoney/DeUMoney calls, each goroutine the only writer of its own slot (1, MAX_USERS, 2, MAX_USERS-1, ...), started together; afterwards every byte of .PASSWDS and every SHM entry is compared with the image plain arithmetic gives. `resetconcrec G N seed` = the same with whole-record writers: every goroutine mixes SetUMoney/DeUMoney, ptt.SetUserPerm with its own (stale-Money) copy and ptt.GetUser on its own slot while a registrar runs ptt.SetupNewUser into free slots; every slot of .PASSWDS is judged, bystanders included. `resetconcfld G N seed` = N rounds in which, for each of G users at once, a credit/debit (after a varying delay) races with ptt.ChangePasswd / ptt.ChangeEmail of the same user; Money on disk = SHM = arithmetic is checked after every round and every slot at the end. nontrivial = a resetconc* that ran"
 	if run.Replay != "" {
 		for _, l := range hx.ReplayOps(run.Replay) {
 			do(l)
@@ -1710,6 +1916,12 @@ func generateConcurrent() {
 		g := []int{2, 8, 16, 4, 22, 3}[k%6]
 		do(fmt.Sprintf("resetconcrec %d %d %d", g, n/2, run.R.U64()%1000000007))
 	}
+	// field writers (password / e-mail changes) racing with money writers on the same users
+	for k := 0; k < rounds/2; k++ {
+		g := []int{2, 4, 1}[k%3]
+		do(fmt.Sprintf("resetconcfld %d %d %d", g, n/10, run.R.U64()%1000000007))
+	}
+	do("resetconcfld 0 10 1")
 	do("resetconcrec 0 10 1")
 	do("resetconcrec 4 10")
 	do("resetconc 0 10 1")
@@ -1770,6 +1982,7 @@ func main() {
 		"registrations: `reset ... free=<slots>` leaves those slots without a user id (their SHM/disk money poked to 0, a leftover balance, or only one of the two), `newuser id startMoney` = ptt.SetupNewUser, the slot it got is observed in the SHM user hash and written into the op line together with the record; " +
 		"loader: `config 0|1` sets ptttype.USE_COOLDOWN for the history, `loaduhash 0` = Shm.Reset()+cache.LoadUHash() (fresh start), `loaduhash 1` = cache.LoadUHash() on the live segment (on-the-fly), `pokerec u id money` = an external edit of a record (owner change / money only / vacated); fresh starts on tables with balances, reloads after owner changes, followed by credits, debits, whole-record writes and registrations, under both configuration values; " +
 		"account expiry: `age u days perm` edits LastLogin/UserLevel of a record, `expire id m` = ptt.SetupNewUser with a stale .fresh (on a full table this runs tryCleanUser -> checkAndExpireAccount -> killUser); credited accounts that expire (unregistered, registered, last slot, balance 0), accounts inside the grace range, exempt accounts, slot 1, a table with a free slot (no clean-up), then reads, a credit and a restart; every slot is judged after the sweep; " +
+		"field writers: `chemail u text` = ptt.ChangeEmail between money operations (only the Email field of that record may change); " +
 		"malformed stream: missing/short/long/torn .PASSWDS (recorded, not judged), ill-formed op lines. nontrivial = set/de/get that reached the real function; overflow and MoneyOf(invalid) cases are recorded and compared with the model, not judged"
 	if run.Replay != "" {
 		for _, l := range hx.ReplayOps(run.Replay) {
